@@ -2,7 +2,7 @@
 import random
 from .. import gen
 from ..real import Real
-from ..terms import V, A, C
+from ..terms import V, A, C, L
 from . import control
 from .common import diff_replay
 
@@ -69,6 +69,75 @@ def run_corpus(ctx, item):
     return control.run_control(ctx, clauses, qn, na, None, {}, _nt)
 
 
+def long_body_case(ctx, rng, nt_fn):
+    # long clauses (up to the compiler's size limit) with a cut somewhere, also inside a trailing if-then-else
+    n = rng.choice([9, 10, 12, 15, 16, 17, 18, 19])
+    goals = []
+    nv = 0
+    cutpos = rng.randrange(1, n)
+    lead_or = rng.random() < 0.4
+    for i in range(n):
+        if i == cutpos:
+            # the cut at the top level of the body, or inside a branch of a construct that is one of the goals
+            k = rng.random()
+            if k < 0.5:
+                goals.append(('cut',))
+            elif k < 0.7:
+                nv += 1
+                goals.append(('or', ('then', ('call', C('o', V('V%d' % nv))), ('cut',)), ('true',)))
+            elif k < 0.85:
+                goals.append(('or', ('cut',), ('fail',)))
+            else:
+                nv += 1
+                goals.append(('or', ('then', ('call', C('z', V('V%d' % nv))), ('true',)), ('cut',)))
+            continue
+        if i == 0 and lead_or:
+            # a disjunction in front of a long continuation
+            nv += 2
+            goals.append(('or', ('call', C('m', V('V%d' % (nv - 1)))), ('call', C('n', V('V%d' % nv)))))
+            continue
+        nv += 1
+        goals.append(('call', C(rng.choice(['m', 'm'] if i < 2 or i == n - 1 else ['o']), V('V%d' % nv))))
+    if rng.random() < 0.3:
+        nv += 1
+        goals[-1] = ('or', ('then', ('call', C('o', V('V%d' % nv))), ('cut',)), ('true',))
+    body = gen.conj(goals)
+    clauses, qn, na = control.wrap_body([body, conj_all(nv)], nv, rng)
+    return control.run_control(ctx, clauses, qn, na, rng, {'long_bodies': 1}, nt_fn)
+
+
+def output_after_cut_case(ctx, rng, nt_fn):
+    """the textbook idiom `p(In, Out) :- [guard,] !, Out = result(In).` with later clauses that also match, called
+    with Out unbound, bound to the result, bound to something else, partially bound: the unification after the cut
+    is a TEST that may fail after the commit (then the whole call fails - later clauses are not tried)"""
+    K, R, S = V('K'), V('R'), V('S')
+    structs = [C('round', K), L([K]), C('pair', K, A('m0')), A('plain'), C('round', A('m0')), L([A('m0'), K])]
+    clauses = list(gen.leaf_facts())
+    ncl = rng.choice([2, 2, 3])
+    for i in range(ncl):
+        last = i == ncl - 1
+        hk = rng.choice([K, K, A('m0'), A('m1'), C('s', K)])
+        goals = []
+        if rng.random() < 0.35:
+            goals.append(('call', C(rng.choice(['ev', 'od', 'm']), K if hk[0] != 'a' else A('m0'))))
+        if not last or rng.random() < 0.3:
+            goals.append(('cut',))
+        out = rng.choice(structs)
+        goals.append(('call', C('=', R, out) if rng.random() < 0.8 else C('=', out, R)))
+        if rng.random() < 0.3:
+            goals.append(('call', C('m', S)))
+        head = C('t', hk, R, S)
+        clauses.append((head, gen.conj(goals)))
+    pre = []
+    kq = rng.choice([A('m0'), A('m1'), V('Q1'), C('s', A('m0'))])
+    rq = rng.choice([V('Q2'), V('Q2'), C('round', A('m0')), C('round', A('m1')), C('angular', A('m0')), L([V('Q4')]), A('plain'),
+                     C('pair', V('Q4'), V('Q5')), C('round', V('Q4'))])
+    clauses.append((C('top', V('W'), V('Q1'), V('Q2'), V('Q3'), V('Q4'), V('Q5')),
+                    gen.conj([('call', C('m', V('W'))), ('call', C('=', V('Q1'), kq)) if kq[0] != 'v' else ('true',),
+                              ('call', C('=', V('Q2'), rq)) if rq != V('Q2') else ('true',), ('call', C('t', V('Q1'), V('Q2'), V('Q3')))])))
+    return control.run_control(ctx, clauses, 'top', 6, rng, {'output_unification_after_cut': 1}, nt_fn)
+
+
 def run_case(ctx, seed, idx, tier):
     if idx < ctx['exh']:
         body, nv = control.enum_body(idx, ctx['blocks'])
@@ -81,23 +150,9 @@ def run_case(ctx, seed, idx, tier):
         return control.run_control(ctx, clauses, qn, na, None, c, _nt)
     rng = random.Random((seed * 1000003 + idx) * 7 + 5)
     if rng.random() < 0.1:
-        # long clauses (up to the compiler's size limit) with a cut somewhere, also inside a trailing if-then-else
-        n = rng.choice([12, 15, 16, 17, 18, 19])
-        goals = []
-        nv = 0
-        cutpos = rng.randrange(1, n)
-        for i in range(n):
-            if i == cutpos:
-                goals.append(('cut',))
-                continue
-            nv += 1
-            goals.append(('call', C(rng.choice(['m', 'm'] if i < 2 or i == n - 1 else ['o']), V('V%d' % nv))))
-        if rng.random() < 0.3:
-            nv += 1
-            goals[-1] = ('or', ('then', ('call', C('o', V('V%d' % nv))), ('cut',)), ('true',))
-        body = gen.conj(goals)
-        clauses, qn, na = control.wrap_body([body, conj_all(nv)], nv, rng)
-        return control.run_control(ctx, clauses, qn, na, rng, {'long_bodies': 1}, _nt)
+        return long_body_case(ctx, rng, _nt)
+    if rng.random() < 0.06:
+        return output_after_cut_case(ctx, rng, _nt)
     w = {'and': 0.50, 'or': 0.20, 'ite': 0.15, 'then': 0.07, 'not': 0.08}
     clauses, qn, na = gen.gen_control_case(rng, weights=w, allow_cut_p=1.0)
     c = {'random_bodies': 1}
